@@ -156,6 +156,8 @@ type family struct {
 	inputs []string
 	// how many of the family go to the Coq file (evenly strided)
 	coq int
+	// collect: the types this family creates are nested into other types in the second phase
+	collect bool
 }
 
 func run(cfg *lib.Config, res *lib.Result, rng *lib.Rng, pool *Pool) {
@@ -166,7 +168,11 @@ func run(cfg *lib.Config, res *lib.Result, rng *lib.Rng, pool *Pool) {
 	all, _ := os.Create(filepath.Join(cfg.Out, "failing_inputs.txt"))
 	defer all.Close()
 	nall := 0
-	for _, f := range fams {
+	// created: inputs of the resolve families on which ParseType returned a type, at most three per distinct printed
+	// text (all when printing failed), in order of appearance: the material of the second phase
+	var created, createdUnprintable []string
+	perOut := map[string]int{}
+	runFamily := func(f family) {
 		op := "P"
 		if f.kind == "parsetype" {
 			op = "T"
@@ -195,6 +201,22 @@ func run(cfg *lib.Config, res *lib.Result, rng *lib.Rng, pool *Pool) {
 				bad = checkParse(res, in, o)
 			} else {
 				bad = checkParseType(res, in, o)
+				if o.Class == "ok" && o.Aux["nil"] != "true" && f.collect && len(s) <= 120 && !strings.HasPrefix(s, "type ") {
+					key := o.Out + "\x00" + o.Aux["printfail"]
+					lim := 3
+					if o.Aux["printfail"] != "" {
+						lim = 12
+					}
+					if perOut[key] < lim {
+						perOut[key]++
+						if o.Aux["printfail"] != "" {
+							// a type that cannot be printed is the first candidate for a fault in an error message
+							createdUnprintable = append(createdUnprintable, s)
+						} else {
+							created = append(created, s)
+						}
+					}
+				}
 			}
 			if bad && nall < 50000 {
 				nall++
@@ -210,6 +232,32 @@ func run(cfg *lib.Config, res *lib.Result, rng *lib.Rng, pool *Pool) {
 				res.Sample(map[string]interface{}{"input": in, "observed": o})
 			}
 		}
+	}
+	for _, f := range fams {
+		runFamily(f)
+	}
+	// second phase: every type the run created as an argument of other types
+	{
+		max := 1200
+		if cfg.Thorough() {
+			max = 6000
+		}
+		if len(created) > max {
+			stride := len(created)/max + 1
+			var c2 []string
+			for i := 0; i < len(created); i += stride {
+				c2 = append(c2, created[i])
+			}
+			created = c2
+		}
+		if len(createdUnprintable) > 300 {
+			createdUnprintable = createdUnprintable[:300]
+		}
+		created = append(createdUnprintable, created...)
+		var ns []string
+		nestCreated(created, func(s string) { ns = append(ns, s) })
+		res.Extra["created_types_nested"] = len(created)
+		runFamily(family{name: "resolve-nested-created", kind: "parsetype", inputs: ns})
 	}
 	res.Exhaustive = false
 	em.emit(cfg, res, pool)
@@ -397,6 +445,18 @@ func families(cfg *lib.Config, rng *lib.Rng) []family {
 			rs = append(rs, randomExpr(r, 1+r.Intn(4)))
 		}
 		add("resolve-random", "parsetype", 0, rs)
+		addc := func(name string, inputs []string) {
+			fams = append(fams, family{name: name, kind: "parsetype", inputs: inputs, collect: true})
+		}
+		addc("resolve-listform", resolveListForm(th))
+		addc("resolve-deferred", resolveDeferred())
+		addc("resolve-hash", resolveHash(th, rng))
+		var r2 []string
+		for i := 0; i < sc(15000, 300000); i++ {
+			r := rng.Fork()
+			r2 = append(r2, randomTypeExpr(r, 1+r.Intn(3)))
+		}
+		addc("resolve-random2", r2)
 	}
 	return fams
 }
